@@ -46,7 +46,7 @@ def run_case(cid, rng, workdir):
         return run_mods(cid, rng, workdir, res)
     if stratum == "dsdna":
         return run_dsdna(cid, rng, workdir, res)
-    kw = {"link_opts": {"p_remove": 0.08, "p_replace": 0.15}}      # links that remove / retag atoms are part of the quantifier
+    kw = {"link_opts": {"p_remove": 0.08, "p_replace": 0.15}, "p_resnr_offset": 0.15}      # links that remove / retag atoms are part of the quantifier
     if stratum == "dup":
         kw = {"layouts": ["ff", "itp+ff"]}
     if stratum == "alias":
